@@ -29,6 +29,7 @@ type Solver struct {
 	Unsat     int
 	Unknown   int
 	Errors    int
+	Retries   int
 	SolverDur time.Duration
 	timeoutMs int
 }
@@ -203,6 +204,14 @@ func (s *Solver) check() string {
 	return ans
 }
 
+func (s *Solver) setTimeout(ms int) {
+	if s.kind == "cvc5" {
+		s.send(fmt.Sprintf("(set-option :tlimit-per %d)", ms))
+	} else {
+		s.send(fmt.Sprintf("(set-option :timeout %d)", ms))
+	}
+}
+
 // CheckWith decides sat(asserted ∧ extra...).  When the answer is sat and
 // wantModel, it returns a model of all declared variables.
 func (s *Solver) CheckWith(wantModel bool, raw []string, extra ...*Term) (string, map[string]uint64) {
@@ -218,6 +227,15 @@ func (s *Solver) CheckWith(wantModel bool, raw []string, extra ...*Term) (string
 		s.send("(assert " + r + ")")
 	}
 	res := s.check()
+	if res == "unknown" {
+		// a timeout under machine load is not a verdict: ask once more with
+		// four times the time before giving the query up as undecided
+		s.setTimeout(4 * s.timeoutMs)
+		s.Unknown--
+		res = s.check()
+		s.setTimeout(s.timeoutMs)
+		s.Retries++
+	}
 	var model map[string]uint64
 	if res == "sat" && wantModel {
 		model = s.getModel()
